@@ -187,7 +187,11 @@ def oracle_family(c, ctx):
         got = np.asarray(getattr(dist, name), np.float64)
         want = pb[name]
         sc = np.abs(want) + (np.abs(pb["minval"]) if name == "maxval" else 0)
-        if got.shape != want.shape or np.any(np.abs(got - want) > 1e-11 * (sc + 1e-300)):
+        try:  # the accessor may or may not be broadcast to the event shape; its VALUES are what is promised
+            got = np.broadcast_to(got, want.shape)
+        except ValueError:
+            raise Violation(f"C05|{fam}|accessor.{name}", f"shape {got.shape} does not broadcast to {want.shape}")
+        if np.any(np.abs(got - want) > 1e-11 * (sc + 1e-300)):
             raise Violation(f"C05|{fam}|accessor.{name}", f"got {got.tolist()} constructor value {want.tolist()}")
     # ---- log_prob at bulk / tails / edges / outside, batched ---------------------------------
     batch = tuple(c["batch"])
